@@ -187,6 +187,15 @@ def sharing_cases(_=None):
              fdl.Config(f, {'b': sh, 'a': sh}), True),
             ('dict order, list shared across entries', fdl.Config(f, {'a': (q := [3]), 'b': [q]}),
              fdl.Config(f, {'b': [q], 'a': q}), True)]
+  # different callables that wrap the same function: the same classmethod reached through two
+  # classes, the same method of two instances
+  obj1, obj2 = _pool.Cls(1), _pool.Cls(2)
+  pairs += [('classmethod of base vs subclass', fdl.Config(_pool.Model.create, 1), fdl.Config(_pool.BigModel.create, 1), False),
+            ('classmethod, same class', fdl.Config(_pool.BigModel.create, 1), fdl.Config(_pool.BigModel.create, 1), True),
+            ('nested classmethods of base vs subclass', fdl.Config(f, [fdl.Partial(_pool.Model.create)]),
+             fdl.Config(f, [fdl.Partial(_pool.BigModel.create)]), False),
+            ('same method of two (unequal) instances', fdl.Config(obj1.__repr__), fdl.Config(obj2.__repr__), False),
+            ('same method of one instance', fdl.Config(obj1.__repr__), fdl.Config(obj1.__repr__), True)]
   inner_s = {7}
   pairs.append(('set shared below a nested Config',
                 fdl.Config(f, fdl.Config(dags.node_fn(1), inner_s), inner_s),
